@@ -6,13 +6,16 @@ PATTERNS = [('/p/{x}', '/p/1'), ('/p/a', '/p/a'), ('/q', '/q'), ('/{y}/z', '/w/z
 SEQ_KINDS = {'route': 'route', 'static': 'route', 'sub': 'sub', 'tween': 'tween'}
 
 
-def pred_kinds(st):
-    return tuple(k for k in ('method', 'param', 'vp', 'vq') if st.get(k) is not None)
+from .order import pred_kinds, view_order
 
 
 def view_key(st):
     return (st.get('kind', 'view'), st.get('ctx'), st.get('name', ''), st.get('route'),
-            st.get('method'), st.get('param'), st.get('vp'), st.get('vq'))
+            st.get('method'), st.get('param'), st.get('vp'), st.get('vq'), st.get('xhr'), st.get('header'),
+            st.get('accept'))
+
+
+ALL_TRUE = [['X-Requested-With', 'XMLHttpRequest'], ['X-H', '1']]
 
 
 def gen_program(rng, stream):
@@ -35,6 +38,8 @@ def gen_program(rng, stream):
             st['method'] = rng.choice(['GET', 'POST'])
         if has_rpred and chance(0.4):
             st['rp'] = '1'
+        if chance(0.3):
+            st['prefix'] = 1
         routes.append(st['name'])
         S.append(st)
     if has_rpred:
@@ -107,13 +112,20 @@ def gen_program(rng, stream):
             st['vp'] = rng.choice(['1', '2'])
         if stream == 'pred2' and chance(0.5) and 'vp' not in st:
             st['vq'] = rng.choice(['1', '2'])
-        slot = (st.get('ctx'), st['name'], st.get('route'))
+        if chance(0.12):
+            st['xhr'] = True
+        if chance(0.12):
+            st['header'] = 'X-H'
+        if chance(0.12):
+            st['accept'] = rng.choice(['text/html', 'application/json'])
+        slot = (st.get('ctx'), st['name'], st.get('route'), st.get('accept'))
         if view_key(st) in seen:
             continue
-        if stream != 'tie' and stream != 'pred2' and pred_kinds(st) in kinds_in_slot.get(slot, set()):
-            continue                                # same predicate kinds in one slot = equal order (tie)
+        customs = ['vp'] if has_vp else []
+        if stream != 'tie' and stream != 'pred2' and view_order(st, customs, True) in kinds_in_slot.get(slot, set()):
+            continue                                # equal multiview order in one slot = tie (known finding)
         seen.add(view_key(st))
-        kinds_in_slot.setdefault(slot, set()).add(pred_kinds(st))
+        kinds_in_slot.setdefault(slot, set()).add(view_order(st, customs, True))
         if chance(0.45):
             st['perm'] = rng.choice(['p1', 'p1', 'p2', 'NOPERM'])
         r = rng.random()
@@ -139,6 +151,26 @@ def gen_program(rng, stream):
         views = [v for v in views if not (v['name'] == 'x' and v.get('route') is None and v.get('ctx') is None
                                           and pred_kinds(v) == ('param',))]
         views += [base, other]
+    if stream == 'eqsize':
+        # views of ONE slot whose predicate-kind sets differ but have the same size, all holding for one request:
+        # which of them answers is decided by the predicate weights alone
+        pool = ['xhr', 'method', 'param', 'header'] + (['vp'] if has_vp else [])
+        vals = {'xhr': True, 'method': 'GET', 'param': 'a', 'header': 'X-H', 'vp': '1'}
+        size = rng.choice([1, 1, 2, 2, 3])
+        import itertools
+        sets = list(itertools.combinations(pool, size))
+        rng.shuffle(sets)
+        views = [v for v in views if not (v['name'] == 'x' and v.get('route') is None and v.get('ctx') is None)]
+        customs = ['vp'] if has_vp else []
+        used = set()
+        for ks in sets[:rng.choice([2, 2, 3])]:
+            v = dict(k='view', name='x')
+            for k in ks:
+                v[k] = vals[k]
+            if view_order(v, customs, True) in used:
+                continue                            # (different kinds can still tie after the integer division)
+            used.add(view_order(v, customs, True))
+            views.append(v)
     if stream == 'pred2':
         views = [v for v in views if not (v['name'] == 'y' and v.get('route') is None and v.get('ctx') is None)]
         views += [dict(k='view', name='y', vp='1'), dict(k='view', name='y', vq='1')]
@@ -183,8 +215,8 @@ def nest(rng, seq, depth=0):
 def probes_for(rng, S):
     paths = ['/', '/x', '/y', '/nope', '/nope/deeper']
     for st in S:
-        if st['k'] == 'route':
-            paths.append(dict(PATTERNS)[st['pattern']])
+        if st['k'] == 'route' and st['pattern'] in dict(PATTERNS):
+            paths.append(('/pfx' if st.get('prefix') else '') + dict(PATTERNS)[st['pattern']])
         if st['k'] == 'static':
             paths += ['/%s/hello.txt' % st['name'], '/%s/missing.txt' % st['name']]
         if st['k'] == 'view' and st.get('name') == 'boom':
@@ -195,6 +227,10 @@ def probes_for(rng, S):
     for p in paths:
         out.append(['GET', p, '', None, None])
         out.append(['GET', p, 'a=1&b=1&vp=*&vq=*&rp=1', 'p1', None])
+        out.append(['GET', p, 'a=1&b=1&vp=*&vq=*&rp=1', 'p1', None, ALL_TRUE])
+        if any(st.get('accept') for st in S):
+            out.append(['GET', p, 'a=1&vp=*', 'p1', None, ALL_TRUE + [['Accept', 'application/json']]])
+            out.append(['GET', p, '', 'p1', None, [['Accept', 'text/html;q=0.5, application/json']]])
         for _ in range(3):
             m = rng.choice(['GET', 'GET', 'POST'])
             out.append([m, p, rng.choice(queries), rng.choice([None, 'p1', 'p1', 'p2']),
@@ -234,7 +270,7 @@ def insert_shadows(rng, body, shadows):
         if isinstance(it, int):
             out.append(it)
         else:
-            out.append({'inc': insert_shadows(rng, it['inc'], shadows)})
+            out.append(dict(it, inc=insert_shadows(rng, it['inc'], shadows)))
     for it in list(out):
         if isinstance(it, int) and it in shadows:
             inc = {'inc': [shadows[it]]}
@@ -246,13 +282,14 @@ def insert_shadows(rng, body, shadows):
 
 def gen_case(rng, tier):
     r = rng.random()
-    stream = 'main' if r < 0.70 else 'override' if r < 0.88 else 'tie' if r < 0.93 else 'pred2' if r < 0.97 else 'deriv2'
+    stream = ('main' if r < 0.60 else 'override' if r < 0.76 else 'eqsize' if r < 0.88 else 'tie' if r < 0.93
+              else 'pred2' if r < 0.97 else 'deriv2')
     S = gen_program(rng, 'main' if stream == 'override' else stream)
     k = 5 if tier == 'quick' else 8
     variants = [[s['id'] for s in S]]
     for j in range(1, k):
         perm = respecting_shuffle(rng, S) if j % 2 == 1 or j > 3 else [s['id'] for s in S]
-        variants.append(nest(rng, perm) if j >= 2 else perm)
+        variants.append(add_prefixes(rng, nest(rng, perm), S) if j >= 2 else perm)
     probes = probes_for(rng, S)
     if stream == 'override':
         cands = [s for s in S if s['k'] in SHADOWABLE and not (s['k'] == 'view' and s.get('kind', 'view') != 'view')]
@@ -273,6 +310,25 @@ def flatten(body):
     for it in body:
         if isinstance(it, int):
             out.append(it)
-        else:
+        elif isinstance(it, dict):
             out += flatten(it['inc'])
+    return out
+
+
+def add_prefixes(rng, body, S, inside=False):
+    """mark includes as made with route_prefix: allowed when every route of the subtree is a 'prefix' route (their
+    bare pattern is then declared there) and no enclosing include has a prefix"""
+    byid = {s['id']: s for s in S}
+    out = []
+    for it in body:
+        if isinstance(it, dict):
+            sub = flatten(it['inc'])
+            routes = [byid[i] for i in sub if byid[i]['k'] in ('route', 'static')]
+            ok = not inside and all(r['k'] == 'route' and r.get('prefix') for r in routes)
+            if ok and (routes and rng.random() < 0.7 or rng.random() < 0.1):
+                out.append({'inc': add_prefixes(rng, it['inc'], S, True), 'prefix': 1})
+            else:
+                out.append({'inc': add_prefixes(rng, it['inc'], S, inside)})
+        else:
+            out.append(it)
     return out
